@@ -17,12 +17,13 @@ func C04Embed() {
 	// lengths concrete here: the obligation is about verbatim embedding of the text
 	L.n, L.d0, L.d1 = 3, 2, 5
 	deco := &c04Deco{file: "model.yml", comments: verifChoose("comments", 2) == 1}
-	env, err := dsl.Validate([]*dsl.Namespace{c04Model(L, deco, editNone)})
+	L.e0, L.e1 = 4, 6
+	env, err := dsl.Validate(c04All(c04Model(L, deco, editNone)))
 	verifAssert("model-validates", err == nil)
 	if err != nil {
 		return
 	}
-	ns := env.Namespaces[0]
+	ns := c04Main(env)
 	schema := dsl.GetProtocolSchemaString(ns.Protocols[0], env.SymbolTable)
 	verifOut("schema-length", len(schema))
 	verifAssert("schema-has-no-delimiter-clash", !strings.Contains(schema, ")\"") && !strings.Contains(schema, "\"\"\"") && !strings.Contains(schema, "'"))
